@@ -20,6 +20,20 @@ ghost var gArmed bool
 ghost var gFirstLine string
 ghost var gLines int
 
+# Dialer.DialURLContext: the dial runs under the caller's context; a dialer timeout only ever
+# narrows it (the derived context's parent is the caller's), and the login gets host, user and
+# password of the URL
+ghost var gDerived context.Context
+ghost var gTimeoutSet bool
+func telnet.(Dialer).DialURLContext(d, ctx, url) (conn, err)
+  props C15
+  requires url: url != nil && ctx != nil
+  call context.WithTimeout requires derived-from-the-callers-context: $0 == ctx
+  call context.WithTimeout set gDerived := $r0
+  call context.WithTimeout set gTimeoutSet := true
+  call telnet.DialContext requires callers-or-derived-context: (gTimeoutSet ==> $0 == gDerived) && (!gTimeoutSet ==> $0 == ctx)
+  call telnet.DialContext requires address: same($1, url.Host)
+
 func telnet.DialContext(ctx, addr, mycall, password) (c, err)
   props C15
   requires ctx: ctx != nil
